@@ -263,6 +263,34 @@ def bounded(pr):
                         bad.append('%s %s: titratable %r, listed %r, titratable without option %r' % (cn, g.label, g.titratable, k in listed, was))
             if bad and len(viol) < 3:
                 viol.append({'what': '%s -i %s: %s' % (name, fmt(listed)[:60], bad[:2]), 'replay': None})
+    # several structures in one invocation (the loop of propka.run.main: ONE options object for all files): the list still means the
+    # same for the second structure
+    import os
+    import propka.lib as plib
+    import propka.input as pinp
+    from propka.parameters import Parameters
+    from propka.molecular_container import MolecularContainer
+    files = [os.path.join(native.PDB_DIR, n + '.pdb') for n in ('3SGB-subset', '3SGB')]
+    lst = 'E:29,E:57,I:19,I:56,Z:999'
+    try:
+        ev += 1
+        classes.add('one options object, two structures')
+        options = plib.loadOptions(['-q', '-i', lst, '-f', files[0], files[1]])        # filenames: [-f ..., input_pdb]
+        parameters = pinp.read_parameter_file(options.parameters, Parameters())
+        got = []
+        for f in options.filenames:
+            m = MolecularContainer(parameters, options)
+            m = pinp.read_molecule_file(f, m)
+            m.calculate_pka()
+            got.append(sorted((g.label, round(g.pka_value, 6)) for g in m.conformations['AVR'].groups if g.titratable))
+        for f, g_ in zip(list(options.filenames), got):
+            alone = native.run_text(open(f).read(), ['-i', lst])
+            want = sorted((g.label, round(g.pka_value, 6)) for g in alone.conformations['AVR'].groups if g.titratable)
+            if g_ != want and len(viol) < 3:
+                viol.append({'what': '%s processed in one invocation with -i %s after another file: titrated groups %r, alone %r'
+                                     % (os.path.basename(f), lst, g_[:4], want[:4]), 'replay': None})
+    except Exception as e:    # noqa
+        viol.append({'what': 'two structures with one options object: %s: %s' % (type(e).__name__, e), 'replay': None})
     pr.bounded.append({'name': 'C14-monitor: titrate_only on real runs', 'evaluations': ev, 'distinct_nontrivial': len(classes),
                        'bound': '%d structures x (all residues + up to 3 subsets incl. insertion-coded residues and non-existent entries)' % len(names),
                        'rule': 'titratable flags of every group in every conformation vs the list; all-residues list vs no option to 1e-9',
